@@ -294,11 +294,28 @@ class Report:
         return 1 if self.new else 0
 
 
+NOT_OBSERVED = []    # outcome classes the pinned tree shows but this run did not (reported in the evidence, never fatal)
+
+
+def soft_required(missing, hard_ok):
+    """Vacuity guard on OUTCOMES of the code under test: only the coarse classes (some success, some failure) are
+    required; a specific error variant that no longer occurs is a legitimate change of unspecified behaviour and is
+    merely noted.  `hard_ok`: False if the coarse requirement is not met."""
+    if missing:
+        NOT_OBSERVED.extend(m for m in missing if m not in NOT_OBSERVED)
+        log("note: outcome classes seen on the pinned tree but not in this run: %s" % missing)
+    if not hard_ok:
+        raise ToolError("vacuous run: the code under test never both succeeded and failed (%s)" % missing)
+
+
 def write_evidence(prop, tier, seed, coverage, assumptions, wall_s, violations, level="model_checking"):
     os.makedirs(EVIDENCE, exist_ok=True)
     if SELFTESTS:
         coverage = dict(coverage)
         coverage["binding_selftests"] = dict(SELFTESTS)
+    if NOT_OBSERVED:
+        coverage = dict(coverage)
+        coverage["outcome_classes_not_observed"] = list(NOT_OBSERVED)
     ev = {"property_id": prop, "tier": tier, "seed": seed, "level": level, "coverage": coverage,
           "assumptions": assumptions, "wall_s": round(wall_s, 2), "violations": violations}
     json.dump(ev, open(os.path.join(EVIDENCE, prop + ".json"), "w"), indent=1)
